@@ -1576,7 +1576,9 @@ def _events_with_probes(self):
     elif 'c07' in self.oracles:
         # calls that must be refused because they would break a rule (duplicate names / ids): if one of them is accepted
         # the invariants judge the resulting model
-        ev = ev + [e for e in fail_events(self) if e[1] in GUARD_PROBES]
+        # ... and, with all_probes, every other refused call too: a refusal that leaves something behind (a port without a
+        # peer, a half-made service) is judged by the same invariants
+        ev = ev + [e for e in fail_events(self) if e[1] in GUARD_PROBES or getattr(self, 'all_probes', False)]
     return ev
 
 
